@@ -1674,7 +1674,8 @@ func Configs(tier string) []Config {
 		l = append(l, Config{Name: "halving", Halving: true})
 	}
 	if tier == "quick" {
-		l = append(l, Config{Name: "retarget-mainnet", Retarget: true, Blocks: 4*2016 + 20}, Config{Name: "retarget-testnet", Retarget: true, Testnet: true, Blocks: 2*2016 + 20},
+		// five full periods: fast-ish, slow (clamp from below the limit), fast, slow, negative timespan
+		l = append(l, Config{Name: "retarget-mainnet", Retarget: true, Blocks: 5*2016 + 20}, Config{Name: "retarget-testnet", Retarget: true, Testnet: true, Blocks: 2*2016 + 20},
 			Config{Name: "retarget-testnet4", Retarget: true, Testnet: true, Testnet4: true, Blocks: 3*2016 + 20})
 	} else {
 		l = append(l, Config{Name: "retarget-mainnet", Retarget: true, Blocks: 6*2016 + 20}, Config{Name: "retarget-testnet", Retarget: true, Testnet: true, Blocks: 6*2016 + 20},
